@@ -8,20 +8,20 @@ use crate::graph::GraphContext;
 use super::{node::NodeIter, NodeId};
 
 #[derive(Debug, Clone, PartialEq, Default, Deserialize, Serialize)]
-#[serde(default)]
+#[serde(default, deny_unknown_fields)]
 pub struct MarkdownOptions {
     pub refs_extension: String,
 }
 
 #[derive(Debug, Clone, PartialEq, Default, Deserialize, Serialize)]
-#[serde(default)]
+#[serde(default, deny_unknown_fields)]
 pub struct LibraryOptions {
     pub path: String,
 }
 
 // tables that a configuration file leaves out take their defaults
 #[derive(Debug, Clone, PartialEq, Deserialize, Serialize)]
-#[serde(default)]
+#[serde(default, deny_unknown_fields)]
 pub struct Configuration {
     pub markdown: MarkdownOptions,
     pub library: LibraryOptions,
